@@ -183,10 +183,45 @@ def _downsample(ctx, prog):
     rets = r.of_kind("return")
     early = [e for e in rets if (cnt, "LtE", n) in _cmp_set(e.live)]
     ok = len(early) == 1 and len(_cmp_set(early[0].live)) == 1
-    ctx.ob("C11.1", f, ok,
-           "downsample: nothing happens iff count <= N" if ok else
-           "downsample: the early return is not taken exactly when "
-           "count <= N", key="C11.1:early-return")
+    if not ok:
+        # no early return: the reduction nested under the complement. Judged
+        # by where the reduction can run: never for count <= N, and for
+        # count > N (with N >= 1)
+        reds_ = [e for e in r.of_kind("call")
+                 if (e.data.get("name") or "").endswith("reduce_to_ids")]
+
+        def world(le: bool):
+            def env(a):
+                c = norm_cmp(a) if a.op == "cmp" else None
+                if c is None:
+                    return None
+                if c in ((cnt, "LtE", n),):
+                    return le
+                if c in ((n, "Lt", cnt),):
+                    return not le
+                if c in ((n, "Lt", const(1)), (n, "LtE", const(0))):
+                    return False
+                return None
+            return env
+        if reds_:
+            never = all(tm.fold(e.live, world(True)) is False for e in reds_)
+            runs = any(tm.fold(e.live, world(False)) is True for e in reds_)
+            if never and runs:
+                ok = True
+            elif not never and all(tm.fold(e.live, world(True)) is True
+                                   for e in reds_):
+                ok = False
+            else:
+                ctx.undecidable("C11.1", f, "downsample: the condition "
+                                "under which the reduction runs is not a "
+                                "comparison of the pose count with N: "
+                                f"{fmt(reds_[0].live)[:100]}")
+                ok = None
+    if ok is not None:
+        ctx.ob("C11.1", f, ok,
+               "downsample: nothing happens iff count <= N" if ok else
+               "downsample: the reduction also runs when count <= N (no "
+               "early return / guard)", key="C11.1:early-return")
     raises = [e for e in r.of_kind("raise")
               if (n, "Lt", const(1)) in _cmp_set(e.live) or
               (n, "LtE", const(0)) in _cmp_set(e.live)]
@@ -1267,7 +1302,10 @@ VARIANTS = [
     dict(name="downsample-strict-early-return", file="evo/core/trajectory.py",
          find="        if self.num_poses <= num_poses:\n            return\n        if num_poses < 1:",
          replace="        if self.num_poses < num_poses:\n            return\n        if num_poses < 1:",
-         expect="fire", rule="C11.1"),
+         # (for count == N the reduction then runs with linspace(0, N-1, N) =
+         # every index once: the same poses — behaviour is preserved, the
+         # check must not report it; it may decline)
+         expect="silent", allow_error=True),
     dict(name="motion-strict", file="evo/core/filters.py",
          find="        if current_angle >= angle_threshold:",
          replace="        if current_angle > angle_threshold:",
